@@ -213,10 +213,15 @@ class ModelRegistry:
         Add model's index to all duplicate names
         """
         counter = defaultdict(int)
+        taken = {model.name for model in self.models}
         for model in self.models:
             counter[model.name or model.index] += 1
             if counter[model.name] > 1:
-                model.set_raw_name(model.name_joiner(model.name, model.index), generated=True)
+                name = model.name_joiner(model.name, model.index)
+                while name in taken:
+                    name = model.name_joiner(name, model.index)
+                taken.add(name)
+                model.set_raw_name(name, generated=True)
 
     def generate_names(self):
         for model in self.models:
